@@ -57,6 +57,86 @@ example : misspellCands lowerAscii supported "settings".toList
     ["survey".toList, "Settings".toList, "setting".toList, "_setting".toList, "choices".toList]
     = ["setting".toList] := by decide
 
+/-! ## Missing translations -/
+
+/-- **missing_translation_iff.**  On a sheet whose translatable headers have the shape `col` or `col::lang`
+    (guard `trShort`), language `lang` is reported as missing column `col` iff — module docstring of
+    `translations_checks.Translations` — `lang` is used by some translatable column, `col` is used in some
+    language, and there is no `col` in `lang` ("default" being the unspecified language).  Holds for both
+    sheets (`tbl` = the survey or the choices table). -/
+theorem missing_translation_iff (tbl : Aliases) (hs : List (List Str)) (hsh : trShort tbl hs = true)
+    (lang col : Str) :
+    (∃ cols, (lang, cols) ∈ findMissing (findTranslations tbl hs) ∧ col ∈ cols) ↔
+      trMissing (trPairs tbl hs) lang col = true := by
+  have inv := findTranslations_inv tbl hs hsh
+  generalize findTranslations tbl hs = t at inv
+  generalize trPairs tbl hs = ps at inv
+  have hspec : trMissing ps lang col = true ↔
+      (∃ c, (c, lang) ∈ ps) ∧ (∃ l, (col, l) ∈ ps) ∧ (col, lang) ∉ ps := by
+    simp only [trMissing, Bool.and_eq_true, List.any_eq_true, decide_eq_true_eq, Bool.not_eq_true',
+      List.contains_eq_mem, decide_eq_false_iff_not, and_assoc]
+    constructor
+    · rintro ⟨⟨p, hp, rfl⟩, ⟨q, hq, rfl⟩, hn⟩
+      exact ⟨⟨p.1, hp⟩, ⟨q.2, hq⟩, hn⟩
+    · rintro ⟨⟨c, hc⟩, ⟨l, hl⟩, hn⟩
+      exact ⟨⟨(c, lang), hc, rfl⟩, ⟨(col, l), hl, rfl⟩, hn⟩
+  rw [hspec]
+  unfold findMissing
+  by_cases hdo : seenDefaultOnly t = true
+  · simp only [hdo, if_true, List.not_mem_nil, false_and, exists_false, false_iff]
+    rintro ⟨⟨c, hc⟩, ⟨l, hl⟩, hn⟩
+    simp only [seenDefaultOnly, Bool.or_eq_true, List.isEmpty_iff, Bool.and_eq_true, List.any_eq_true,
+      decide_eq_true_eq, beq_iff_eq] at hdo
+    rcases hdo with hnil | ⟨⟨e, he, hk⟩, hlen⟩
+    · obtain ⟨e', he', _⟩ := (inv.keys lang).mpr ⟨c, hc⟩
+      rw [hnil] at he'; cases he'
+    · -- exactly one entry, keyed `default`: every language in the pairs is `default`
+      have hone : ∀ e' ∈ t.seen, e' = e := by
+        intro e' he'
+        match hseen : t.seen, hlen, he, he' with
+        | [x], _, he, he' =>
+          simp only [List.mem_singleton] at he he'
+          rw [he, he']
+      have hl1 : lang = defaultLang := by
+        obtain ⟨e', he', hk'⟩ := (inv.keys lang).mpr ⟨c, hc⟩
+        rw [← hk', hone e' he', hk]
+      have hl2 : l = defaultLang := by
+        obtain ⟨e', he', hk'⟩ := (inv.keys l).mpr ⟨col, hl⟩
+        rw [← hk', hone e' he', hk]
+      exact hn (hl1 ▸ hl2 ▸ hl)
+  · simp only [hdo, if_false, Bool.false_eq_true]
+    constructor
+    · rintro ⟨cols, hmem, hcol⟩
+      rw [List.mem_filterMap] at hmem
+      obtain ⟨e, he, hval⟩ := hmem
+      split at hval
+      · cases hval
+      · rename_i m hm
+        simp only [Option.some.injEq, Prod.mk.injEq] at hval
+        obtain ⟨rfl, rfl⟩ := hval
+        have : col ∈ t.cols ∧ col ∉ e.2 := by simpa [List.mem_filter] using hcol
+        refine ⟨?_, (inv.cols col).mp this.1, ?_⟩
+        · exact (inv.keys e.1).mp ⟨e, he, rfl⟩
+        · intro h; exact this.2 ((inv.seen e he col).mpr h)
+    · rintro ⟨hc, hl, hn⟩
+      obtain ⟨e, he, rfl⟩ := (inv.keys lang).mpr hc
+      have hin : col ∈ t.cols.filter (fun c => !e.2.contains c) := by
+        simp only [List.mem_filter, Bool.not_eq_true', List.contains_eq_mem, decide_eq_false_iff_not]
+        exact ⟨(inv.cols col).mpr hl, fun h => hn ((inv.seen e he col).mp h)⟩
+      refine ⟨t.cols.filter (fun c => !e.2.contains c), ?_, hin⟩
+      rw [List.mem_filterMap]
+      refine ⟨e, he, ?_⟩
+      split
+      · rename_i heq; rw [heq] at hin; cases hin
+      · rfl
+
+
+example : findMissing (findTranslations surveyTrTable
+    [["type".toList], ["label".toList], ["hint".toList, "fr".toList], ["media".toList, "image".toList, "fr".toList]])
+    = [(defaultLang, ["hint".toList, "image".toList]), ("fr".toList, ["label".toList])] := by decide
+example : trShort surveyTrTable
+    [["type".toList], ["label".toList], ["hint".toList, "fr".toList], ["media".toList, "image".toList, "fr".toList]] = true := by decide
+
 /-! ## IANA language codes -/
 
 /-- **iana_iff.**  A language of at least 3 characters is listed iff it is due (not `default`, no valid
